@@ -18,6 +18,9 @@ CHECKS = {
  "C12": ("stateful property-based testing (rapid): generated Feed histories against an independent reference model of the assembly rules, invariants after every step",
          "Generated histories of FileManager.Feed calls and BuildResponse compared with a reference model written from the documented rules; invariants (distinct names, every distinct file present exactly once, no marker survives, no merge) checked after every Feed.",
          "Trusted: the reference model (about 100 lines). Placement of named patches in the documented FIXME area is not asserted."),
+ "C20": ("exhaustive enumeration (singles, all ordered pairs, prefix triples) + property-based testing (rapid) of option lists against a fold oracle; cross-check of README, -h and Features tags",
+         "Every documented option in every form alone and in all ordered pairs is evaluated in-process (two entry paths) against an oracle that folds the assignments over the documented defaults and applies only documented implications; rapid draws longer lists; the binary is run for invalid values.",
+         "Trusted: the README table / -h text as the statement of what each option documents."),
 }
 NOT_YET = "check not built yet (work in progress; the technique applies, see DESIGN.md)"
 
